@@ -9,7 +9,12 @@
 // are handed over through an UNBUFFERED timer channel with non-blocking sends,
 // so a tick is delivered only while the worker is parked in its select - the
 // done-vs-pending-tick race of the select (TickBeatsDone in the spec) is
-// never provoked.  No sleeps are used for ordering; "does not happen" is
+// never provoked.  The final refresh of Shutdown is held inside Refresh for a
+// window during which the pending tick keeps being offered (alone, with a loop
+// refresh in flight, and right after Start): a loop that is still armed takes
+// it.  Service outcomes are KINDS (plain error, context.DeadlineExceeded /
+// Canceled, wrapped, joined, io.EOF, panics with a string / error / nil).
+// No sleeps are used for ordering; "does not happen" is
 // observed for a grace period and reported only when it did happen.
 package c18
 
